@@ -1,0 +1,660 @@
+//! Verification-only hooks. This whole module only exists when the crate is compiled with
+//! `--cfg cormacrelf_incremental_rs_verif`; with the flag off nothing in here is compiled and the
+//! crate behaves exactly as shipped.
+//!
+//! None of these hooks changes an engine decision unless a simulator explicitly installs a
+//! hash seed or a tie-break chooser on the current thread.
+#![allow(missing_docs, clippy::new_without_default)]
+
+use std::cell::{Cell, RefCell};
+use std::hash::{BuildHasher, Hash, Hasher};
+use std::rc::Rc;
+
+use crate::internal_observer::ObserverState;
+use crate::kind::Kind;
+use crate::node::{ErasedNode, Node};
+use crate::scope::Scope;
+use crate::state::{IncrStatus, State};
+use crate::{Incr, IncrState, NodeRef, WeakNode};
+
+// ---------------------------------------------------------------------------------------------
+// H2: deterministic hash order
+// ---------------------------------------------------------------------------------------------
+
+thread_local! {
+    static HASH_SEED: Cell<u64> = const { Cell::new(0) };
+}
+
+/// Sets the seed mixed into every `verif::HashMap` created on this thread from now on.
+pub fn set_hash_seed(seed: u64) {
+    HASH_SEED.with(|s| s.set(seed));
+}
+
+#[derive(Clone, Copy)]
+pub struct VerifBuildHasher(u64);
+
+impl Default for VerifBuildHasher {
+    fn default() -> Self {
+        VerifBuildHasher(HASH_SEED.with(|s| s.get()))
+    }
+}
+
+pub struct VerifHasher(u64);
+
+impl BuildHasher for VerifBuildHasher {
+    type Hasher = VerifHasher;
+    fn build_hasher(&self) -> VerifHasher {
+        VerifHasher(self.0 ^ 0xcbf2_9ce4_8422_2325)
+    }
+}
+
+impl Hasher for VerifHasher {
+    fn write(&mut self, bytes: &[u8]) {
+        for b in bytes {
+            self.0 = (self.0 ^ (*b as u64)).wrapping_mul(0x0000_0100_0000_01b3);
+        }
+    }
+    fn finish(&self) -> u64 {
+        // splitmix64 finaliser, so that the low bits used for bucketing depend on the seed
+        let mut z = self.0.wrapping_add(0x9e37_79b9_7f4a_7c15);
+        z = (z ^ (z >> 30)).wrapping_mul(0xbf58_476d_1ce4_e5b9);
+        z = (z ^ (z >> 27)).wrapping_mul(0x94d0_49bb_1331_11eb);
+        z ^ (z >> 31)
+    }
+}
+
+/// Drop-in replacement for the `std::collections::HashMap`s whose iteration order decides the
+/// order in which user handlers run. Same API (through `Deref`), deterministic seeded hasher.
+pub struct HashMap<K, V>(std::collections::HashMap<K, V, VerifBuildHasher>);
+
+impl<K, V> HashMap<K, V> {
+    pub fn new() -> Self {
+        HashMap(std::collections::HashMap::with_hasher(
+            VerifBuildHasher::default(),
+        ))
+    }
+}
+impl<K, V> Default for HashMap<K, V> {
+    fn default() -> Self {
+        Self::new()
+    }
+}
+impl<K, V> std::ops::Deref for HashMap<K, V> {
+    type Target = std::collections::HashMap<K, V, VerifBuildHasher>;
+    fn deref(&self) -> &Self::Target {
+        &self.0
+    }
+}
+impl<K, V> std::ops::DerefMut for HashMap<K, V> {
+    fn deref_mut(&mut self) -> &mut Self::Target {
+        &mut self.0
+    }
+}
+impl<K, V> IntoIterator for HashMap<K, V> {
+    type Item = (K, V);
+    type IntoIter = std::collections::hash_map::IntoIter<K, V>;
+    fn into_iter(self) -> Self::IntoIter {
+        self.0.into_iter()
+    }
+}
+impl<K: std::fmt::Debug, V: std::fmt::Debug> std::fmt::Debug for HashMap<K, V> {
+    fn fmt(&self, f: &mut std::fmt::Formatter<'_>) -> std::fmt::Result {
+        self.0.fmt(f)
+    }
+}
+
+// ---------------------------------------------------------------------------------------------
+// H3: in-bucket tie-break of the recompute heap
+// ---------------------------------------------------------------------------------------------
+
+thread_local! {
+    static CHOOSER: RefCell<Option<Box<dyn FnMut(usize) -> usize>>> = const { RefCell::new(None) };
+}
+
+/// Installs (or removes) a chooser that picks which entry of the lowest non-empty bucket of the
+/// recompute heap is popped next. `None` (the default) means FIFO, as shipped.
+pub fn set_chooser(chooser: Option<Box<dyn FnMut(usize) -> usize>>) {
+    CHOOSER.with(|c| *c.borrow_mut() = chooser);
+}
+
+pub(crate) fn choose(len: usize) -> Option<usize> {
+    if len < 2 {
+        return None;
+    }
+    CHOOSER.with(|c| {
+        let mut c = c.borrow_mut();
+        c.as_mut().map(|f| f(len) % len)
+    })
+}
+
+// ---------------------------------------------------------------------------------------------
+// H4: reach probes, H5: engine event listener
+// ---------------------------------------------------------------------------------------------
+
+macro_rules! probes {
+    ($($name:ident),* $(,)?) => {
+        #[derive(Clone, Copy, Debug, PartialEq, Eq)]
+        #[repr(usize)]
+        pub enum Probe { $($name),* }
+        pub const PROBE_NAMES: &[&str] = &[$(stringify!($name)),*];
+    };
+}
+probes! {
+    AdjustHeightsMovedNode,
+    IncreaseHeightOfQueuedNode,
+    DirectRecomputeScope,
+    DirectRecomputeMinHeight,
+    RemovedFromHeapUnnecessary,
+    RemovedFromHeapInvalidated,
+    PropagateInvalidityInvalidated,
+    PropagateInvalidityRequeued,
+    BindMainInvalidRhs,
+    RemoveParentSwapped,
+    DeadVarsLoopedTwice,
+    DeferredVarWriteApplied,
+    HandlerSkippedCreatedThisRound,
+    HandlerSkippedDisallowed,
+    ExpertFireAll,
+    ExpertEdgeCallback,
+    WeakMapGcRemoved,
+    SetMaxHeightResized,
+    BindRhsSameNode,
+    BindRhsSwapped,
+    CutoffApplied,
+}
+
+thread_local! {
+    static PROBES: RefCell<Vec<u64>> = RefCell::new(vec![0; PROBE_NAMES.len()]);
+    static LISTENER: RefCell<Option<Box<dyn FnMut(Event)>>> = const { RefCell::new(None) };
+}
+
+#[inline]
+pub(crate) fn probe(p: Probe) {
+    PROBES.with(|v| v.borrow_mut()[p as usize] += 1);
+}
+
+/// Returns and resets this thread's probe counters.
+pub fn take_probes() -> Vec<(&'static str, u64)> {
+    PROBES.with(|v| {
+        let mut v = v.borrow_mut();
+        let out = PROBE_NAMES.iter().copied().zip(v.iter().copied()).collect();
+        for x in v.iter_mut() {
+            *x = 0;
+        }
+        out
+    })
+}
+
+/// Things the engine does that are not otherwise visible through the public API.
+/// Purely observational.
+#[derive(Clone, Copy, Debug, PartialEq, Eq)]
+pub enum Event {
+    /// `recompute_one` started for this node id
+    Recompute(usize),
+    /// node became invalid
+    Invalidate(usize),
+    BecameNecessary(usize),
+    BecameUnnecessary(usize),
+}
+
+/// Installs (or removes) a listener for engine events on this thread.
+pub fn set_listener(listener: Option<Box<dyn FnMut(Event)>>) {
+    LISTENER.with(|l| *l.borrow_mut() = listener);
+}
+
+pub(crate) fn emit(ev: Event) {
+    LISTENER.with(|l| {
+        // A listener must never call back into the engine; if it is somehow re-entered, skip.
+        if let Ok(mut l) = l.try_borrow_mut() {
+            if let Some(f) = l.as_mut() {
+                f(ev)
+            }
+        }
+    });
+}
+
+// ---------------------------------------------------------------------------------------------
+// H1: node registry, audit, snapshot
+// ---------------------------------------------------------------------------------------------
+
+#[derive(Clone, Debug, PartialEq, Eq)]
+pub struct NodeSnapshot {
+    pub id: usize,
+    pub kind: &'static str,
+    pub height: i32,
+    pub necessary: bool,
+    pub valid: bool,
+    pub stale: bool,
+    pub in_recompute_heap: bool,
+    pub has_value: bool,
+    pub num_parents: usize,
+    pub num_observers: usize,
+    pub num_on_update_handlers: i32,
+    pub recomputed_at: i32,
+    pub changed_at: i32,
+}
+
+#[derive(Clone, Debug, PartialEq, Eq)]
+pub struct StateSnapshot {
+    pub nodes: Vec<NodeSnapshot>,
+    pub max_height_seen: i32,
+    pub max_height_allowed: i32,
+    pub stabilisation_num: i32,
+    pub recompute_heap_len: usize,
+    pub num_all_observers: usize,
+    pub status_not_stabilising: bool,
+}
+
+fn kind_tag(node: &Node) -> &'static str {
+    match node.verif_kind() {
+        None => "Invalid",
+        Some(k) => match k {
+            Kind::Constant(_) => "Constant",
+            Kind::ArrayFold(_) => "ArrayFold",
+            Kind::Var(_) => "Var",
+            Kind::Map(_) => "Map",
+            Kind::MapWithOld(_) => "MapWithOld",
+            Kind::MapRef(_) => "MapRef",
+            Kind::Map2(_) => "Map2",
+            Kind::Map3(_) => "Map3",
+            Kind::Map4(_) => "Map4",
+            Kind::Map5(_) => "Map5",
+            Kind::Map6(_) => "Map6",
+            Kind::BindLhsChange { .. } => "BindLhsChange",
+            Kind::BindMain { .. } => "BindMain",
+            Kind::Expert(_) => "Expert",
+        },
+    }
+}
+
+/// `Scope::height`, but returns None instead of panicking when the bind is gone.
+fn scope_height(scope: &Scope) -> Option<i32> {
+    match scope {
+        Scope::Top => Some(0),
+        Scope::Bind(weak) => {
+            let bind = weak.upgrade()?;
+            bind.verif_height()
+        }
+    }
+}
+
+impl State {
+    pub(crate) fn verif_register(&self, node: WeakNode) {
+        self.verif_registry.borrow_mut().push(node);
+    }
+
+    pub(crate) fn verif_live_nodes(&self) -> Vec<NodeRef> {
+        let mut reg = self.verif_registry.borrow_mut();
+        reg.retain(|w| w.strong_count() > 0);
+        reg.iter().filter_map(|w| w.upgrade()).collect()
+    }
+
+    pub(crate) fn verif_snapshot(&self) -> StateSnapshot {
+        let nodes = self.verif_live_nodes();
+        let ahh = self.adjust_heights_heap.borrow();
+        StateSnapshot {
+            nodes: nodes
+                .iter()
+                .map(|n| NodeSnapshot {
+                    id: n.id.0,
+                    kind: kind_tag(n),
+                    height: n.height.get(),
+                    necessary: n.is_necessary(),
+                    valid: n.is_valid(),
+                    stale: n.is_stale(),
+                    in_recompute_heap: n.is_in_recompute_heap(),
+                    has_value: n.value_as_any().is_some(),
+                    num_parents: n.parents.borrow().len(),
+                    num_observers: n.observers.borrow().len(),
+                    num_on_update_handlers: n.num_on_update_handlers.get(),
+                    recomputed_at: n.recomputed_at.get().0,
+                    changed_at: n.changed_at.get().0,
+                })
+                .collect(),
+            max_height_seen: ahh.verif_max_height_seen(),
+            max_height_allowed: ahh.max_height_allowed(),
+            stabilisation_num: self.stabilisation_num.get().0,
+            recompute_heap_len: self.recompute_heap.len(),
+            num_all_observers: self.all_observers.borrow().len(),
+            status_not_stabilising: self.status.get() == IncrStatus::NotStabilising,
+        }
+    }
+
+    /// A port of the OCaml `Node.invariant` / `State.invariant` walkers, restricted to what can
+    /// be stated at a quiescent point (outside `stabilise`). Returns one line per broken
+    /// invariant; read-only.
+    pub(crate) fn verif_audit(&self, after_stabilise: bool) -> Vec<String> {
+        let mut out: Vec<String> = Vec::new();
+        macro_rules! bad {
+            ($($arg:tt)*) => { out.push(format!($($arg)*)) };
+        }
+        if self.status.get() != IncrStatus::NotStabilising {
+            bad!("state: status is {:?} at a quiescent point", self.status.get());
+            return out;
+        }
+        let nodes = self.verif_live_nodes();
+        let max_allowed = self.adjust_heights_heap.borrow().max_height_allowed();
+        if self.recompute_heap.max_height_allowed() != max_allowed {
+            bad!(
+                "state: recompute heap admits height {} but adjust-heights heap admits {}",
+                self.recompute_heap.max_height_allowed(),
+                max_allowed
+            );
+        }
+
+        // ---- the recompute heap itself
+        let heap_entries = self.recompute_heap.verif_entries();
+        let mut heap_ids: Vec<usize> = Vec::new();
+        let mut lowest_nonempty: Option<i32> = None;
+        for (bucket, node) in heap_entries.iter() {
+            if lowest_nonempty.is_none() {
+                lowest_nonempty = Some(*bucket);
+            }
+            if node.height_in_recompute_heap.get() != *bucket {
+                bad!(
+                    "heap: node {} sits in bucket {} but height_in_recompute_heap = {}",
+                    node.id.0,
+                    bucket,
+                    node.height_in_recompute_heap.get()
+                );
+            }
+            if node.height.get() != *bucket {
+                bad!(
+                    "heap: node {} sits in bucket {} but has height {}",
+                    node.id.0,
+                    bucket,
+                    node.height.get()
+                );
+            }
+            if heap_ids.contains(&node.id.0) {
+                bad!("heap: node {} is queued more than once", node.id.0);
+            }
+            heap_ids.push(node.id.0);
+            if !node.needs_to_be_computed() {
+                bad!(
+                    "heap: node {} ({}) is queued but is not necessary-and-stale",
+                    node.id.0,
+                    kind_tag(node)
+                );
+            }
+            if after_stabilise && !matches!(node.verif_kind(), Some(Kind::Var(_))) {
+                bad!(
+                    "heap: node {} ({}) is still queued after stabilise",
+                    node.id.0,
+                    kind_tag(node)
+                );
+            }
+        }
+        if heap_entries.len() != self.recompute_heap.len() {
+            bad!(
+                "heap: length counter {} but {} entries are queued",
+                self.recompute_heap.len(),
+                heap_entries.len()
+            );
+        }
+        if let Some(low) = lowest_nonempty {
+            if self.recompute_heap.verif_height_lower_bound() > low {
+                bad!(
+                    "heap: height_lower_bound {} is above the lowest non-empty bucket {}",
+                    self.recompute_heap.verif_height_lower_bound(),
+                    low
+                );
+            }
+        }
+
+        // ---- other queues must be drained outside stabilise
+        {
+            let ahh = self.adjust_heights_heap.borrow();
+            if !ahh.is_empty() || ahh.verif_queued() != 0 {
+                bad!("adjust-heights heap is not empty at a quiescent point");
+            }
+        }
+        if !self.propagate_invalidity.borrow().is_empty() {
+            bad!("propagate_invalidity stack is not empty at a quiescent point");
+        }
+        if !self.run_on_update_handlers.borrow().is_empty() {
+            bad!("run_on_update_handlers queue is not empty at a quiescent point");
+        }
+        let has_ids: Vec<usize> = self
+            .handle_after_stabilisation
+            .borrow()
+            .iter()
+            .filter_map(|w| w.upgrade())
+            .map(|n| n.id.0)
+            .collect();
+
+        // ---- observers
+        let all_observers = self.all_observers.borrow();
+        for (id, obs) in all_observers.iter() {
+            let st = obs.state().get();
+            if !matches!(st, ObserverState::InUse | ObserverState::Disallowed) {
+                bad!("observer {:?} is registered in the state but is {:?}", id, st);
+            }
+            let node = obs.observing_erased();
+            let known = node.observers.borrow().contains_key(id);
+            if !known {
+                bad!(
+                    "observer {:?} is registered in the state but node {} does not list it",
+                    id,
+                    node.id.0
+                );
+            }
+        }
+        for weak in self.new_observers.borrow().iter() {
+            if let Some(obs) = weak.upgrade() {
+                let st = obs.state().get();
+                if !matches!(st, ObserverState::Created | ObserverState::Unlinked) {
+                    bad!("observer {:?} waits in new_observers but is {:?}", obs.id(), st);
+                }
+            }
+        }
+
+        // ---- per node
+        let mut necessary_count = 0usize;
+        for n in nodes.iter() {
+            // only nodes of this state are in the registry
+            let id = n.id.0;
+            let nec = n.is_necessary();
+            if nec {
+                necessary_count += 1;
+            }
+            if n.height_in_adjust_heights_heap.get() != -1 {
+                bad!("node {id}: height_in_adjust_heights_heap = {} outside adjust_heights", n.height_in_adjust_heights_heap.get());
+            }
+            let queued = n.is_in_recompute_heap();
+            if queued != heap_ids.contains(&id) {
+                bad!("node {id}: is_in_recompute_heap = {queued} disagrees with the heap contents");
+            }
+            if queued != n.needs_to_be_computed() {
+                bad!(
+                    "node {id} ({}): queued = {queued} but necessary-and-stale = {}",
+                    kind_tag(n),
+                    n.needs_to_be_computed()
+                );
+            }
+            if n.is_in_handle_after_stabilisation.get() != has_ids.contains(&id) {
+                bad!(
+                    "node {id}: handle_after_stabilisation flag = {} disagrees with the queue",
+                    n.is_in_handle_after_stabilisation.get()
+                );
+            }
+            // handler counts
+            {
+                let mut expected = n.on_update_handlers.borrow().len() as i32;
+                for (oid, weak) in n.observers.borrow().iter() {
+                    match weak.upgrade() {
+                        None => bad!("node {id}: lists observer {:?} which is gone", oid),
+                        Some(obs) => {
+                            expected += obs.num_handlers();
+                            if !all_observers.contains_key(oid) {
+                                bad!("node {id}: lists observer {:?} which the state does not know", oid);
+                            }
+                            if obs.observing_erased().id.0 != id {
+                                bad!("node {id}: lists observer {:?} which observes another node", oid);
+                            }
+                        }
+                    }
+                }
+                if n.num_on_update_handlers.get() != expected {
+                    bad!(
+                        "node {id}: num_on_update_handlers = {} but {} handlers are registered",
+                        n.num_on_update_handlers.get(),
+                        expected
+                    );
+                }
+            }
+            // parent slots (kept for necessary and unnecessary nodes alike)
+            {
+                let parents = n.parents.borrow();
+                let pci = n.parent_child_indices.borrow();
+                for (pi, weak) in parents.iter().enumerate() {
+                    let Some(p) = weak.upgrade() else {
+                        bad!("node {id}: parent slot {pi} dangles");
+                        continue;
+                    };
+                    if !p.is_necessary() {
+                        bad!("node {id}: parent {} is not necessary", p.id.0);
+                    }
+                    if !p.is_valid() {
+                        bad!("node {id}: parent {} is invalid but still linked", p.id.0);
+                    }
+                    let ci = pci
+                        .my_child_index_in_parent_at_index
+                        .get(pi)
+                        .copied()
+                        .unwrap_or(-1);
+                    if ci < 0 {
+                        bad!("node {id}: no child index recorded for parent slot {pi}");
+                        continue;
+                    }
+                    match p.verif_child_at(ci) {
+                        Some(c) if crate::rc_thin_ptr_eq(&c, n) => {}
+                        _ => bad!(
+                            "node {id}: parent {} does not have it as child number {ci}",
+                            p.id.0
+                        ),
+                    }
+                    let back = p
+                        .parent_child_indices
+                        .borrow()
+                        .my_parent_index_in_child_at_index
+                        .get(ci as usize)
+                        .copied()
+                        .unwrap_or(-1);
+                    if back != pi as i32 {
+                        bad!(
+                            "node {id}: parent {} records it at parent slot {back}, not {pi}",
+                            p.id.0
+                        );
+                    }
+                }
+            }
+            if !nec {
+                // "unneeded nodes have no dependants and are not scheduled"
+                if queued {
+                    bad!("node {id}: unnecessary but scheduled");
+                }
+                continue;
+            }
+            // ---- necessary nodes
+            let h = n.height.get();
+            if h < 0 {
+                bad!("node {id}: necessary with height {h}");
+            }
+            if h > max_allowed {
+                bad!("node {id}: height {h} exceeds the limit {max_allowed}");
+            }
+            match scope_height(&n.created_in) {
+                Some(sh) => {
+                    if h <= sh {
+                        bad!("node {id}: height {h} is not above its defining bind's height {sh}");
+                    }
+                }
+                None => {
+                    if n.is_valid() {
+                        bad!("node {id}: necessary and valid but its defining bind is gone");
+                    }
+                }
+            }
+            if n.is_valid() {
+                let children = n.verif_children();
+                let pci = n.parent_child_indices.borrow();
+                for (j, c) in children.iter().enumerate() {
+                    if c.height.get() >= h {
+                        bad!(
+                            "node {id}: height {h} is not above child {} at height {}",
+                            c.id.0,
+                            c.height.get()
+                        );
+                    }
+                    let pi = pci
+                        .my_parent_index_in_child_at_index
+                        .get(j)
+                        .copied()
+                        .unwrap_or(-1);
+                    if pi < 0 {
+                        bad!("node {id}: child number {j} ({}) is not linked back", c.id.0);
+                        continue;
+                    }
+                    let cparents = c.parents.borrow();
+                    match cparents.get(pi as usize).and_then(|w| w.upgrade()) {
+                        Some(p) if crate::rc_thin_ptr_eq(&p, n) => {}
+                        _ => bad!(
+                            "node {id}: child {} does not list it at parent slot {pi}",
+                            c.id.0
+                        ),
+                    }
+                    let back = c
+                        .parent_child_indices
+                        .borrow()
+                        .my_child_index_in_parent_at_index
+                        .get(pi as usize)
+                        .copied()
+                        .unwrap_or(-1);
+                    if back != j as i32 {
+                        bad!(
+                            "node {id}: child {} records child index {back}, not {j}",
+                            c.id.0
+                        );
+                    }
+                }
+                if after_stabilise && !queued && n.value_as_any().is_none() {
+                    bad!("node {id} ({}): necessary and valid but has no value after stabilise", kind_tag(n));
+                }
+            }
+        }
+        let stats_necessary = self.num_nodes_became_necessary.get() as i64
+            - self.num_nodes_became_unnecessary.get() as i64;
+        if stats_necessary != necessary_count as i64 {
+            bad!(
+                "stats: necessary = {stats_necessary} but {necessary_count} live nodes are necessary"
+            );
+        }
+        out
+    }
+}
+
+impl Node {
+    pub(crate) fn verif_register_self(self: &Rc<Self>) {
+        if let Some(state) = self.weak_state.upgrade() {
+            state.verif_register(Rc::downgrade(self));
+        }
+    }
+}
+
+impl IncrState {
+    /// See [State::verif_audit].
+    pub fn verif_audit(&self, after_stabilise: bool) -> Vec<String> {
+        self.inner.verif_audit(after_stabilise)
+    }
+    pub fn verif_snapshot(&self) -> StateSnapshot {
+        self.inner.verif_snapshot()
+    }
+}
+
+impl<T> Incr<T> {
+    /// The engine's id of this node, to correlate [Event]s and [NodeSnapshot]s.
+    pub fn verif_id(&self) -> usize {
+        self.node.id().0
+    }
+}
